@@ -54,7 +54,7 @@ func (c *capLogger) take() [][]byte {
 	return l
 }
 
-var weights = map[string]int{"burst": 6, "encrypt": 4, "decrypt": 3, "open": 1, "close": 1, "restart": 1, "advance": 3, "revoke": 1, "rotate": 1}
+var weights = map[string]int{"encryptUnderFault": 2, "burst": 6, "encrypt": 4, "decrypt": 3, "open": 1, "close": 1, "restart": 1, "advance": 3, "revoke": 1, "rotate": 1}
 
 func TestWorld(t *testing.T) {
 	kit.Steps(kit.Pick(25, 40))
@@ -62,21 +62,22 @@ func TestWorld(t *testing.T) {
 }
 
 type mon struct {
-	w          *world.World
-	t          *rapid.T
-	payloadKey map[string]int  // DRK fp -> record id it encrypted
-	pairs      map[string]bool // keyfp|nonce
-	drk        map[string]bool
-	ikFp       map[string]string // rowkey -> fp (reference-derived)
-	skFp       map[string]string
-	roleIK     map[string]bool
-	roleSK     map[string]bool
-	perIK      map[string]int
-	markerSeq  uint64
-	markers    [][]byte
-	pairsSeen  int
-	reqSeen    int
-	scan       *kit.Scanner
+	faultPlanned bool // the operation in progress runs under an injected fault and may fail
+	w            *world.World
+	t            *rapid.T
+	payloadKey   map[string]int  // DRK fp -> record id it encrypted
+	pairs        map[string]bool // keyfp|nonce
+	drk          map[string]bool
+	ikFp         map[string]string // rowkey -> fp (reference-derived)
+	skFp         map[string]string
+	roleIK       map[string]bool
+	roleSK       map[string]bool
+	perIK        map[string]int
+	markerSeq    uint64
+	markers      [][]byte
+	pairsSeen    int
+	reqSeen      int
+	scan         *kit.Scanner
 }
 
 func (m *mon) payload(t *rapid.T) []byte {
@@ -96,6 +97,8 @@ func (m *mon) payload(t *rapid.T) []byte {
 		p = append(p, h[i%32]^byte(i))
 	}
 	m.markers = append(m.markers, h[:24])
+	// known to the leak scanner from the moment it exists (an encrypt that fails must not leak it either)
+	m.scan.Add(p[:24], fmt.Sprintf("payload marker #%d", m.markerSeq))
 	return p
 }
 
@@ -111,6 +114,40 @@ func runHistory(t *rapid.T) {
 	w.OnOp = m.after
 	acts := w.Actions()
 	delete(acts, "pressure")
+	// one operation under one injected fault (metastore / KMS call, AEAD call, secret allocation - also one that
+	// strikes after the factory consumed its input -, opening / re-protecting a key secret): it may fail; what
+	// it logs is scanned, and everything the following operations do is judged as usual
+	acts["encryptUnderFault"] = func(t *rapid.T) {
+		p := w.PickProc("proc")
+		s, fresh := w.SessionFor(p, w.PickPart("part"), false)
+		target := rapid.SampledFrom([]string{"ext", "ext", "aead", "alloc", "alloc-consumed", "sec-open", "sec-release"}).Draw(t, "faultTarget")
+		rel := rapid.IntRange(0, 5).Draw(t, "faultAt")
+		base, abase := w.Log.Len(), w.AEAD.Len()
+		switch target {
+		case "ext":
+			w.Log.Plan = func(idx int, c *kit.Call) kit.FaultKind {
+				if idx-base == rel {
+					return kit.FaultError
+				}
+				return kit.NoFault
+			}
+		case "aead":
+			w.AEAD.Plan = func(idx int, c *kit.AEADCall) bool { return idx-abase == rel }
+		case "alloc":
+			w.Secrets.FailRel(rel, func() {})
+		case "alloc-consumed":
+			w.Secrets.FailRelWiped(rel, func() {})
+		case "sec-open":
+			w.Secrets.FailOpenRel(rel, func() {})
+		case "sec-release":
+			w.Secrets.FailReleaseRel(rel, func() {})
+		}
+		m.faultPlanned = true
+		w.Encrypt(s, m.payload(t), false, fresh)
+		m.faultPlanned = false
+		w.Log.Plan, w.AEAD.Plan = nil, nil
+		w.Secrets.ClearFail()
+	}
 	acts["burst"] = func(t *rapid.T) {
 		p := w.PickProc("proc")
 		part := w.PickPart("part")
@@ -241,6 +278,16 @@ func (m *mon) after(ev *world.Event) {
 	w, t := m.w, m.t
 	lines := capture.take()
 	if ev.Kind != "encrypt" && ev.Kind != "decrypt" && ev.Kind != "open" && ev.Kind != "close" && ev.Kind != "restart" {
+		return
+	}
+	if ev.Err != nil && m.faultPlanned {
+		// an operation that failed under an injected fault: whatever it logged on the way out is scanned
+		for _, h := range lines {
+			if what, enc := m.scan.Find(h); what != "" {
+				fail(t, w, "plaintext %s appears (%s) in a log line of a failed %s: %.160q", what, enc, ev.Kind, h)
+			}
+		}
+		kit.Rec.Label("failed-op-logs-scanned")
 		return
 	}
 	if ev.Err != nil {
